@@ -26,7 +26,8 @@ DIALECTS = [("standard", AstToSqlVisitor), ("sqlite", AstToSqliteSqlVisitor), ("
 POSITIONS: List[dict] = []
 NORM: Dict[str, bool] = {}     # known-finding regions that are active in this run
 KID_ESCAPE = "like-escape-clause-depends-on-content"
-KID_TWICE = "athena-hassubset-operand-twice"
+KID_TWICE = "template-repeats-operand"
+REPEATS = [("athena", "hassubset(.. S at 1"), ("standard", "floor(.. S at 0"), ("standard", "ceiling(.. S at 0")]
 
 S = ("Str", ("$", 0))
 F = ("Id", "f", ())
@@ -169,7 +170,7 @@ def compare(base_sql: str, var_sql: str, s: str, kind: str, fn: Optional[str], s
     changed = [j for j in range(len(tv)) if tv[j] != tb[j]]
     if s == "":
         return len(changed) == 0
-    if twice and kind == "plain" and len(changed) == 2:
+    if twice and kind == "plain" and len(changed) >= 2:
         # known finding: the template repeats the operand (Athena hassubset) - each copy must be its own literal of s
         return all(tv[j][0] == "str" and tv[j][1] == s for j in changed)
     if len(changed) != 1 or tv[changed[0]][0] != "str":
@@ -217,7 +218,7 @@ def check_literal(i: int, d: int, alias: bool, s: str) -> bool:
         return base is None
     if base is None or not isinstance(base, str) or not isinstance(var, str):
         return base is None and not isinstance(var, str)
-    twice = bool(NORM.get(KID_TWICE)) and DIALECTS[d][0] == "athena" and p["desc"].startswith("hassubset(.. S at 1")
+    twice = bool(NORM.get(KID_TWICE)) and any(DIALECTS[d][0] == dn and p["desc"].startswith(pre) for dn, pre in REPEATS)
     return compare(base, var, s, p["kind"], p["fn"], strict=not NORM.get(KID_ESCAPE, False),
                    hole=HOLE_TOKEN.get((i, d, alias), -1), twice=twice)
 
